@@ -292,3 +292,23 @@ func SpecUpper(s string) string { return s }
 //@   trusted library contract: in this repository errors.As is only used with *common.RedisError targets; false means err neither is one nor wraps one
 //@   ensures not_that_type: !r ==> !hastype(err, "common.RedisError")
 //@   ensures sees_through_wrapping: r <==> SpecCarriesRedisError(err)
+
+// ---- Exec reports on a batch only after every node's share of it has finished (C19) ------------
+// The node batches run concurrently; a caller that is told "failed" (or "done") while one of them is
+// still in flight retries / goes on, and the straggler is applied later on top of newer writes.
+//   started / joined  node batches handed to a goroutine / waited for on their done channel
+//@ func Batch.Exec
+//@   arith int
+//@   properties C19
+//@   ghost var started mathint = 0
+//@   ghost var joined mathint = 0
+//@   modifies heap, started, joined
+//@   set started = started + 1 at call doBatch
+//@   set joined = joined + 1 after recv done
+//@   ensures every_node_batch_that_was_started_has_finished_when_exec_returns: joined == started
+//@   loop 1:
+//@     invariant spawning: started == rangeindex#1 + 1 && joined == 0 && 0 - 1 <= rangeindex#1 && rangeindex#1 < len(bat.batches) && bat != nil
+//@   loop 2:
+//@     invariant joining: joined == rangeindex#2 + 1 && 0 - 1 <= rangeindex#2 && rangeindex#2 < len(bat.batches) && started == len(bat.batches) && bat != nil
+//@   loop 3:
+//@     invariant collected: joined == started && bat != nil
